@@ -573,6 +573,27 @@ impl CompositionGraph {
         self.imports
             .retain(|_, n| self.graph[*n].package != Some(package));
 
+        // Any argument satisfied by a node of the package becomes unsatisfied again
+        for (target, index) in self
+            .graph
+            .edge_indices()
+            .filter_map(|e| {
+                let (source, target) = self.graph.edge_endpoints(e)?;
+                match self.graph[e] {
+                    Edge::Argument(i)
+                        if self.graph[source].package == Some(package)
+                            && self.graph[target].package != Some(package) =>
+                    {
+                        Some((target, i))
+                    }
+                    _ => None,
+                }
+            })
+            .collect::<Vec<_>>()
+        {
+            self.graph[target].remove_satisfied_arg(index);
+        }
+
         // Remove all nodes associated with the package
         self.graph
             .retain_nodes(|g, i| g[i].package != Some(package));
@@ -1127,6 +1148,19 @@ impl CompositionGraph {
             .collect::<Vec<_>>()
         {
             self.remove_node(node);
+        }
+
+        // Any argument satisfied by the node becomes unsatisfied again
+        for (target, index) in self
+            .graph
+            .edges_directed(node.0, Direction::Outgoing)
+            .filter_map(|e| match e.weight() {
+                Edge::Argument(i) => Some((e.target(), *i)),
+                Edge::Alias(_) | Edge::Dependency => None,
+            })
+            .collect::<Vec<_>>()
+        {
+            self.graph[target].remove_satisfied_arg(index);
         }
 
         // Remove the node from the graph
